@@ -22,6 +22,12 @@ CHECKS = {
     "C14": (MC, "TLC model checking of the transcribed weight-balanced tree algorithms (WBTreeAlg) and of the map contract (OrdMap) + replay of TLC-enumerated and random operation sequences on WBTreeMap, traces validated by OrdMapTrace (contract + balance on the observed shape)", "hook verif_shape_json reports the physical tree", "3 C14"),
     "C18": (MC, "TLC enumerates all small graphs (Toposort.tla, transcribed Kahn checked against ValidOutput); each graph x new/old splits replayed on morphism_toposort, outputs validated by TopoTrace", "functional dom/cod tables", "3 C18"),
 }
+CHECKS.update({
+    "C15": (MC, "artefact check of the generated API (no way to obtain an enum element except through a constructor) + TLC trace validation: <enum>_case / _cases / new_<enum> checked by ApiTrace!EnumBad after every close and new_<enum>", "enum theories of the corpus", "3 C15"),
+    "C16": (MC, "TLC evaluates SemiNaive!ExactlyOnce over all 2^n labellings of every rule family, on the plan extracted from the emitted code (comment block and index fields bound in the body); TLAPS lemma for the ideal plan in the thorough tier", "extraction by tools/extract.py; a parse failure is a tool error", "3 C16"),
+    "C17": (MC, "inheritance as implicit reference stages; TLC trace validation of families of histories that differ in when morphisms, dom/cod facts and member facts arrive; known finding KF-C17-1 classified by a counterfactual re-run", "one model declaration, member predicates over global types, acyclic functional morphism graphs", "3 C17"),
+    "C19": ("translation_validation", "structural validation of module-mode vs component-mode output (env structs, link names, rule code) by TLC on Link.tla", "behavioural comparison of the two builds is not part of this revision", "3 C19"),
+})
 NOT_YET = {
 }
 NA = {
